@@ -82,10 +82,19 @@ def intsOut (l : List Int) : Json := .arr (l.map iOut).toArray
 /-- indices `-len-2 … len+1` -/
 def idxRange (len : Nat) : List Int := (List.range (2 * len + 4)).map (fun (k : Nat) => (Int.ofNat k) - (Int.ofNat len) - 2)
 
-def evalOut {X : Type} (xOut : X → Json) (names : List String) (extra : List String) (s : EvalState X Int)
+def attrOut {R : Type} (f : R → Json) : Except PyErr (AttrResult R) → Json
+  | .ok (.own n) => Json.mkObj [("own", .str n)]
+  | .ok (.dynamic r) => Json.mkObj [("ok", f r)]
+  | .error e => errJ e
+
+/-- the names queried on an evaluator: the tracked ones, then the extra ones that are not tracked -/
+def queryNames (names extra : List String) : List String := names ++ extra.filter (fun n => !names.contains n)
+
+def evalOut {X : Type} (xOut : X → Json) (names : List String) (extra own : List String) (s : EvalState X Int)
     (more : List (String × Json)) : Json :=
-  let qnames := names ++ extra
+  let qnames := queryNames names extra
   Json.mkObj ([
+    ("attr", pairsOut (fun n => attrOut (fun l => Json.arr (l.map xOut).toArray) (s.getAttr own n)) (qnames.map (fun n => (n, n)))),
     ("len", nOut s.len),
     ("epochs", intsOut s.epochs),
     ("names", .arr (names.map Json.str).toArray),
@@ -102,12 +111,23 @@ def mdOut : Md → Json
   | .dict => Json.arr #[.str "dict"]
   | .empty => Json.arr #[.str "empty"]
 
-def stateOut (extra statq : List String) : CB → ST → Json
-  | .metric c, .metric s => evalOut iOut c.names extra s []
+/-- the own-name lists of the three classes (metric evaluator, observable evaluator, ObservableStatistics) -/
+structure Own where
+  metric : List String
+  observable : List String
+  stats : List String
+
+def stateOut (extra statq : List String) (own : Own) : CB → ST → Json
+  | .metric c, .metric s => evalOut iOut c.names extra own.metric s []
   | .observable c, .observable s =>
-    evalOut (pairsOut iOut) c.names extra s
+    evalOut (pairsOut iOut) c.names extra own.observable s
       [("stat_series", pairsOut (fun o => pairsOut (fun q => exOut intsOut (obsSeries s o q)) (statq.map (fun q => (q, q))))
-          ((c.names ++ extra).map (fun o => (o, o))))]
+          ((queryNames c.names extra).map (fun o => (o, o)))),
+       ("stat_attr", pairsOut (fun o => pairsOut (fun q =>
+            match s.getItem o with
+            | .error e => errJ e
+            | .ok data => attrOut intsOut (obsStatGetAttr own.stats data q)) (statq.map (fun q => (q, q))))
+          ((queryNames c.names extra).map (fun o => (o, o))))]
   | .saver c, .saver ws =>
     Json.mkObj [("writes", .arr (ws.map (fun ab =>
       let argJ : Json := match ab.1 with | .initial => .str "initial" | .epoch e => iOut e
@@ -130,6 +150,8 @@ def run (j : Json) : R Json := do
   let cbs ← (← jArr (← fld j "callbacks")).toList.mapM parseCallback
   let extra ← (match fldOpt j "extra_names" with | some x => do (← jArr x).toList.mapM jStr | none => pure [])
   let statq ← (match fldOpt j "stat_queries" with | some x => do (← jArr x).toList.mapM jStr | none => pure [])
+  let strs (k : String) : R (List String) := (match fldOpt j k with | some x => do (← jArr x).toList.mapM jStr | none => pure [])
+  let own : Own := ⟨← strs "own_metric", ← strs "own_observable", ← strs "own_stats"⟩
   let segs ← jArr (← fld j "segments")
   let mut cur : List (CB × ST) := cbs.map (fun c => (c, c.init))
   let mut out : Array Json := #[]
@@ -145,8 +167,8 @@ def run (j : Json) : R Json := do
     | .ok nxt =>
       cur := (List.zip (List.range nxt.length) nxt).map (fun ics =>
         if clear.contains ics.1 then (ics.2.1, clearState ics.2.2) else ics.2)
-      out := out.push (Json.mkObj [("after", .arr (nxt.map (fun cs => stateOut extra statq cs.1 cs.2)).toArray),
-        ("after_clear", .arr (cur.map (fun cs => stateOut extra statq cs.1 cs.2)).toArray)])
+      out := out.push (Json.mkObj [("after", .arr (nxt.map (fun cs => stateOut extra statq own cs.1 cs.2)).toArray),
+        ("after_clear", .arr (cur.map (fun cs => stateOut extra statq own cs.1 cs.2)).toArray)])
   return Json.mkObj [("segments", .arr out)]
 
 /-- op `c17.strip`: `stripPlural` on a list of strings -/
